@@ -181,17 +181,12 @@ Definition full_window (cs : cstr) : window :=
 (** kind: 0 = windows(Character), 1 = windows(Bytes), 2 = windows(Full),
     3 = char() called directly, >= 4 = byte() called directly *)
 Definition windows (kind max ctx : N) (lens : list N) : res (list window) :=
-  match kind with
-  | 3 => char_windows lens max ctx
-  | 0 | 1 | 2 =>
-    if sumN lens =? 0 then Ok [zero_window]                       (* s.is_empty() *)
-    else match kind with
-         | 0 => char_windows lens max ctx
-         | 1 => byte_windows lens max ctx
-         | _ => Ok [full_window (cs_new lens)]
-         end
-  | _ => byte_windows lens max ctx
-  end.
+  if kind =? 3 then char_windows lens max ctx
+  else if 4 <=? kind then byte_windows lens max ctx
+  else if sumN lens =? 0 then Ok [zero_window]                    (* s.is_empty() *)
+  else if kind =? 0 then char_windows lens max ctx
+  else if kind =? 1 then byte_windows lens max ctx
+  else Ok [full_window (cs_new lens)].
 
 (** text.rs: possible_character_substrings (same arithmetic; informational) *)
 Fixpoint mapM {A B} (f : A -> res B) (l : list A) : res (list B) :=
@@ -232,7 +227,7 @@ Fixpoint Tile (fs fe : window -> N) (s e : N) (ws : list window) : Prop :=
 
 (** kind class: 0 characters, 1 bytes, 2 full *)
 Definition kclass (kind : N) : N :=
-  match kind with 0 | 3 => 0 | 2 => 2 | _ => 1 end.
+  if (kind =? 0) || (kind =? 3) then 0 else if kind =? 2 then 2 else 1.
 
 (** per-window clauses: ctx_contains, byte_char_agree, ctx_str, ctx_bound *)
 Definition win_okb (lens : list N) (kc max : N) (w : window) : bool :=
@@ -245,11 +240,9 @@ Definition win_okb (lens : list N) (kc max : N) (w : window) : bool :=
   (* the reported string is the context slice *)
   && (w_soff w =? w_bcs w) && (w_slen w =? w_bce w - w_bcs w)
   (* size limit *)
-  && (match kc with
-      | 0 => w_ce w - w_cs w <=? max
-      | 1 => w_bce w - w_bcs w <=? max
-      | _ => true
-      end).
+  && (if kc =? 0 then w_ce w - w_cs w <=? max
+      else if kc =? 1 then w_bce w - w_bcs w <=? max
+      else true).
 
 Definition wins_okb (lens : list N) (kc max : N) (ws : list window) : bool :=
   tileb w_ws w_we 0 (lenN lens) ws && tileb w_bws w_bwe 0 (sumN lens) ws
@@ -266,16 +259,14 @@ Definition prop_okb (kind max ctx : N) (lens : list N) (r : res (list window)) :
   if sumN lens =? 0 then
     (* empty text: outside the quantifier; only "defined result" *)
     match r with Ok _ | Err _ _ => true | _ => false end
+  else if kclass kind =? 2 then is_ok_with (wins_okb lens 2 max) r
+  else if kclass kind =? 0 then
+    if max <=? 2 * ctx then is_err 1 r else is_ok_with (wins_okb lens 0 max) r
   else
-    match kclass kind with
-    | 2 => is_ok_with (wins_okb lens 2 max) r
-    | 0 => if max <=? 2 * ctx then is_err 1 r else is_ok_with (wins_okb lens 0 max) r
-    | _ =>
-      if max <=? 2 * ctx then is_err 1 r
-      else if existsb (fun b => max - ctx <? b) lens then is_err 2 r     (* fits in no window *)
-      else if forallb (fun b => b <=? max - 2 * ctx) lens then is_ok_with (wins_okb lens 1 max) r
-      else is_ok_with (wins_okb lens 1 max) r || is_err 2 r              (* fits only in the first window *)
-    end.
+    if max <=? 2 * ctx then is_err 1 r
+    else if existsb (fun b => max - ctx <? b) lens then is_err 2 r       (* fits in no window *)
+    else if forallb (fun b => b <=? max - 2 * ctx) lens then is_ok_with (wins_okb lens 1 max) r
+    else is_ok_with (wins_okb lens 1 max) r || is_err 2 r.               (* fits only in the first window *)
 
 (** * val glue
     input  = (kind max ctx clusters g probes)
